@@ -105,6 +105,8 @@ thread_local! {
     static HOSTLOG: RefCell<Vec<(&'static str, u64)>> = const { RefCell::new(Vec::new()) };
 }
 static REENTER: Mutex<Option<Arc<Sendable<Fx>>>> = Mutex::new(None);
+/// handle of `re1` itself: the host function re-enters the function that called it
+static REENTER_SELF: Mutex<Option<Arc<Sendable<Fx>>>> = Mutex::new(None);
 static P_REENTER_DEPTH: AtomicU64 = AtomicU64::new(0);
 static IN_CALL: AtomicI64 = AtomicI64::new(0);
 static P_CALLS_OVERLAPPED: AtomicU64 = AtomicU64::new(0);
@@ -167,7 +169,9 @@ fn main_runtime() -> Runtime<NoCtx> {
         }
         fn reenter(x: u64) -> u64 {
             host("reenter", x);
-            let f = { REENTER.lock().unwrap().clone() };
+            // odd arguments re-enter the calling function itself (bounded depth), even ones another function
+            let f = if x % 2 == 1 && x > 1 { REENTER_SELF.lock().unwrap().clone() } else { REENTER.lock().unwrap().clone() };
+            let x = if x % 2 == 1 && x > 1 { x / 2 + 1 } else { x };
             match f {
                 Some(f) => {
                     P_REENTER_DEPTH.fetch_add(1, SeqCst);
@@ -795,6 +799,7 @@ pub fn execute(d: &ConcDesc, keep_trace: bool) -> RunResult {
             }
             if !viol::any() {
                 *REENTER.lock().unwrap() = Some(fns[0].clone());
+                *REENTER_SELF.lock().unwrap() = Some(fns[9].clone());
                 // the same call executed alone: the reference for the differential oracle
                 tracked::set_log(true);
                 for ops in &d.callers {
@@ -830,6 +835,7 @@ pub fn execute(d: &ConcDesc, keep_trace: bool) -> RunResult {
                             (Ok(mut pkg), Ok(mut pkg2)) => match load(&mut pkg, &mut pkg2) {
                                 Ok(f) => {
                                     *REENTER.lock().unwrap() = Some(f[0].clone());
+                                    *REENTER_SELF.lock().unwrap() = Some(f[9].clone());
                                     fns = f;
                                     *shared.lock().unwrap() = (Some(rts), Some(Sendable((pkg, pkg2))));
                                     fresh_pkg = true;
@@ -947,6 +953,7 @@ pub fn execute(d: &ConcDesc, keep_trace: bool) -> RunResult {
         {
             let _rg = alloc::ModeGuard::new(alloc::MODE_RUN);
             *REENTER.lock().unwrap() = None;
+            *REENTER_SELF.lock().unwrap() = None;
             drop(fns);
             let s = std::mem::take(&mut *shared.lock().unwrap());
             drop(s);
